@@ -598,6 +598,11 @@ func init() {
 		p.PValidators, p.PSWR, p.PVary, p.URLs, p.PUnsafe = 0.9, 0.35, 0.35, 1, 0.02
 		p.PErrReply, p.PLocation, p.PRange, p.PReqCC = 0.05, 0.0, 0.0, 0.2
 	})
+	profiles["conc"] = derive("conc", func(p *Profile) {
+		p.NReq = [2]int{5, 10}
+		p.PValidators, p.PSWR, p.PVary, p.URLs, p.PUnsafe = 0.9, 0.5, 0.35, 2, 0.12
+		p.PErrReply, p.PLocation, p.PRange, p.PReqCC, p.PSpelling = 0.05, 0.0, 0.0, 0.15, 0.3
+	})
 	profiles["hit"] = derive("hit", func(p *Profile) {
 		p.NReq = [2]int{3, 7}
 		p.PSpelling, p.PReqCC, p.PNoCache, p.PMustReval, p.PUnsafe = 0.7, 0.1, 0.03, 0.05, 0.02
